@@ -239,6 +239,17 @@ func modeFallback(n int) {
 	shortDeadlines = false
 	time.Sleep(350 * time.Millisecond)
 	u.Close()
+	// third phase: the URL names one server, dial_addr another: both legs belong to the dial_addr server; the
+	// server of the URL (a decoy that would answer anything) must never see a query, on either protocol
+	decoy := newServer("decoy", func(ex int, proto string) behaviour { return behaviour{} }, true, true)
+	defer decoy.close()
+	u2, err := upstream.NewUpstream("udp://"+decoy.addr, upstream.Opt{DialAddr: srv.addr})
+	if err != nil {
+		panic(err)
+	}
+	runWorkers(u2, 4, n/8+1, 300*time.Millisecond, 300*time.Millisecond, false)
+	time.Sleep(350 * time.Millisecond)
+	u2.Close()
 	planOf = nil
 	// the event filter stays on: hook events of worker goroutines that outlive the run must not reach this trace
 }
@@ -324,6 +335,8 @@ func main() {
 		modeQReplay(*in, time.Duration(*n)*time.Millisecond)
 	case "rreplay":
 		modeRReplay(*in, time.Duration(*n)*time.Millisecond)
+	case "preplay":
+		modePReplay(*in, time.Duration(*n)*time.Millisecond)
 	default:
 		panic("unknown mode " + *mode)
 	}
